@@ -66,6 +66,28 @@ CHECKS = {
         design_ref="DESIGN.md section 7, C06",
         note="Values that cannot be constructed in the generated Rust type are counted, not judged.",
         technique="TLC enumeration of out-of-constraint values replayed into macro-generated code"),
+    "C05": dict(
+        category="model_checking",
+        text="Versions.tla defines schema evolution (Conv: what a reader of version tr must obtain from a value of version tw). MC_Versions "
+             "enumerates families of versions (flat SEQUENCEs, CHOICE, ENUMERATED, and the versioned SEQUENCE nested in an extension "
+             "addition / CHOICE extension alternative / root component / list), every ordered (writer, reader) pair, all presence "
+             "patterns and payload sizes that exercise every first length octet; the compiled real types must decode to Conv and a "
+             "sentinel written behind the message in the same stream must be read back with nothing remaining.",
+        design_ref="DESIGN.md section 7, C05",
+        note="k <= 3 (quick) / 5 (thorough) appended additions instead of 8; open finding NoSkipUnknownAdditions is modelled exactly (value "
+             "and number of unread bits) for flat families and as 'any deviation' where it corrupts following root components.",
+        technique="TLA+ version/projection model + TLC enumeration of version pairs replayed into macro-generated code"),
+    "C16": dict(
+        category="model_checking",
+        text="Tags.tla defines the X.680 8.6 canonical order and the tag rules; TLC checks WireOrder is a root-first, per-group sorted "
+             "permutation (SEQUENCE: identity) for ALL ordered selections of 3 (quick) / 4 (thorough) components from a pool of 11 tag "
+             "situations x marker positions. For every one of them the order of write_seq/read_seq and the constants produced by the real "
+             "macro pipeline (run time) must equal the specification; a compiled sample is encoded and compared bit for bit with X691!Enc "
+             "in wire order.",
+        design_ref="DESIGN.md section 7, C16",
+        note="Automatic tagging inside an untagged CHOICE used as SET component is outside the pool (asn1rs and X.680 differ there in ways the "
+             "property does not pin down).",
+        technique="TLA+ tag-order model + TLC permutation enumeration checked against the real macro expansion and compiled code"),
 }
 
 NOT_APPLICABLE = {}
